@@ -229,10 +229,12 @@ def main(argv=None):
 
     mods_rule = '; '.join('%s: %s' % (s.name, s.rule) for s in subs)
     exhaustive = all(s.exhaustive for s in subs) and skipped == 0
+    import compmech as _cm
     evidence = {
         'property_id': prop,
         'tier': a.tier,
         'seed': seed,
+        'code_under_test': os.path.dirname(os.path.dirname(os.path.abspath(_cm.__file__))),
         'level': 'exploration',
         'coverage': {
             'evaluations': evaluations,
